@@ -85,6 +85,7 @@ def check_program(p):
     s = Solver()
     bv, iv = declare(s, p["order"], p["doms"])
     env = ref.Env(prefix="")
+    posted = []        # descriptions actually posted so far (their documented meaning is the reference)
     for step, tj in enumerate(p["steps"]):
         t = tj
         try:
@@ -99,6 +100,7 @@ def check_program(p):
         except Exception as e:
             issues.append({"kind": "ensure-exception", "step": step, "detail": "%s: %s" % (type(e).__name__, e)})
             break
+        posted.append(t)
         stats["prefixes"] += 1
         # late declaration inside a session (histories): add a variable between solves on some programs
         if p.get("late") and step == 0:
@@ -113,11 +115,9 @@ def check_program(p):
             issues.append({"kind": "exception", "step": step, "detail": "%s: %s" % (type(e).__name__, str(e)[:200])})
             break
         # reference formula
-        try:
-            R = z3.And(env.domain(s.variables), *[ref.rb(x, env) for x in s.constraints])
-        except ref.RefTypeError as e:
-            issues.append({"kind": "illtyped-accepted", "step": step, "detail": str(e)})
-            break
+        zb = [env.z(v) for v in bv]
+        zi = [env.z(v) for v in iv]
+        R = z3.And(env.domain(s.variables), *[trees.ref_desc(x, zb, zi) for x in posted])
         cap = []
         bad = False
         for a in _flatten_args(_RecSolver.log):
@@ -212,11 +212,14 @@ def brute_force(p, upto_step):
         if p.get("late") and step == 0:
             bv = bv + [s.bool_var()]
     vs = s.variables
+    posted = []
+    for t in p["steps"][:upto_step + 1]:
+        if trees.buildable(t):
+            posted.append(t)
     ranges = [(False, True) if isinstance(v, BoolVar) else range(v.lo, v.hi + 1) for v in vs]
-    sols = 0
     for combo in itertools.product(*ranges):
         a = {id(v): x for v, x in zip(vs, combo)}
-        if all(ref.pyeval(c, a) for c in s.constraints):
+        if all(trees.py_desc(t, [a[id(v)] for v in bv], [a[id(v)] for v in iv]) for t in posted):
             return s, True
     return s, False
 
@@ -246,7 +249,8 @@ def replay(payload, verbose=False):
             for v, val in zip(s2.variables, payload["pins"]):
                 a[id(v)] = val
                 s2.ensure((v if val else ~v) if isinstance(v, BoolVar) else (v == val))
-            want = all(ref.pyeval(c, a) for c in s2.constraints)
+            posted = [t for t in p["steps"][:step + 1] if trees.buildable(t)]
+            want = all(trees.py_desc(t, [a[id(v)] for v in bv], [a[id(v)] for v in iv]) for t in posted)
             ret = s2.find_answer(backend="z3")
             if verbose:
                 print("pinned %r: find_answer=%r plain evaluation=%r" % (payload["pins"], ret, want))
@@ -265,7 +269,8 @@ def replay(payload, verbose=False):
     if ret:
         a = {id(v): v.sol for v in s2.variables}
         try:
-            if not all(ref.pyeval(c, a) for c in s2.constraints):
+            posted = [t for t in p["steps"][:step + 1] if trees.buildable(t)]
+            if not all(trees.py_desc(t, [a[id(v)] for v in bv], [a[id(v)] for v in iv]) for t in posted):
                 return True
         except Exception:
             return True
@@ -349,7 +354,7 @@ def run(tier, only=None):
                   "histories": "find_answer after every ensure (every prefix), optional declaration between solves"}
     rep.outside = ["deeper trees / more variables (covered only by compositionality of the per-constructor cases)",
                    "z3 answering unknown (the real back end treats it as sat; the DSL has no nonlinear terms)"]
-    rep.assumptions = ["reference translator vlib/ea/ref.py is the ordinary meaning of the operators",
+    rep.assumptions = ["the documented meaning of each public constructor as written in vlib/ea/trees.py (ref_desc / py_desc), independent of the trees the library builds",
                        "z3 5.1.0 sound; it is also the back end under test (separate Solver objects, different formulas)",
                        "captured program = every argument of z3.Solver.add() inside the real Z3Backend.solve (proxy of the module global z3)"]
     return rep.finish("For each program the real Solver/Z3Backend run; everything the back end add()s to z3 is captured and z3 decides "
